@@ -48,7 +48,7 @@ MAX_REJECTED_FRACTION = 0.3
 def budget(tier):
     if tier == "quick":
         return {"examples": 400, "shards": 16, "time_s": 90}
-    return {"examples": 2400, "shards": 16, "time_s": 1800, "hard_s": 5400}
+    return {"examples": 12000, "shards": 16, "time_s": 1800, "hard_s": 5400}
 
 
 @st.composite
